@@ -84,6 +84,11 @@ pub fn pred_to_scenario(pred: &[serde_json::Value], id: &str) -> Scenario {
                 });
                 cur = None;
             }
+            "cpanic" => {
+                // the model lets this poll of the child panic
+                scripts.entry(c).or_default().push(Step { acts: std::mem::take(&mut acts), resp: "!".to_string() });
+                cur = None;
+            }
             "ret" | "vec" | "err" => in_poll = false,
             "up" => sc.up.push(UpStep { resp: e["resp"].as_str().unwrap_or("E").to_string(), c }),
             "dropc_b" => sc.ops.push(Op::DropColl),
@@ -123,6 +128,7 @@ fn norm(e: &serde_json::Value) -> Option<String> {
         "poll" => format!("poll w={}", g("w")),
         "cin" => format!("cin c={} key={}", g("c"), g("key")),
         "cout" => format!("cout c={} resp={} k={}", g("c"), g("resp"), g("k")),
+        "cpanic" => format!("cpanic c={}", g("c")),
         "wake_b" => format!("wake_b c={} key={}", g("c"), g("key")),
         "wake_e" => "wake_e".into(),
         "tw" => format!("tw w={}", g("w")),
